@@ -165,7 +165,7 @@ class C19(World):
                 val = {"price": args.choice([0.0, 10.0, 250.5]), "name": args.choice(names), "active": args.random() < 0.5, "is_process_stream": args.random() < 0.5}.get(attr, args.choice([101.3, 500.0, None]))
                 st = dict(op="set_other", s=args.randrange(64), attr=attr, v=val)
             elif op == "set_heat_flow":
-                st = dict(op="set_heat_flow", s=args.randrange(64), v=_duty(args, nice, swarm), units=args.random() < 0.3)
+                st = dict(op="set_heat_flow", s=args.randrange(64), v=_duty(args, nice, swarm), units=args.choice([False, False, "kW", "MW", "W"]))
             elif op == "new_coll":
                 st = dict(op="new_coll")
                 n_c = min(n_c + 1, MAX_COLLS)
@@ -462,7 +462,7 @@ class C19(World):
                         if op == "set":
                             setattr(s, attr, v)
                         elif st.get("units"):
-                            s.set_heat_flow(v, units="kW")
+                            s.set_heat_flow(v, units=st["units"] if isinstance(st["units"], str) else "kW")
                         else:
                             s.set_heat_flow(v)
                         outcome = "ok"
